@@ -30,7 +30,7 @@ FAULTS = {
     'range': ['addi x1, x1, 5000', 'addi x1, x1, -2049', 'lw x1, x2, 2048', 'lw x1, 4096(x2)', 'sw x1, x2, -3000', 'lui x1, 0x100000', 'auipc x1, -524289',
               'beq x1, x2, 5000', 'bne x8, x0, 4096', 'jal x1, 2097152', 'jalr x1, x1, 3', 'slli x1, x1, 32', 'srai x8, x8, 40', 'c.addi x1, 100',
               'c.lw x8, x9, 128', 'c.j 4000', 'csrrw x1, x2, 5000', 'fence 16, 1', 'db 256', 'dh 70000', 'dw 0x100000000', 'dd -0x8000000000000001',
-              'bytes 1 2 256', 'shorts 65536', 'ints -2147483649', 'pack <B 256', 'pack <h, 40000', 'addi x8, x8, 32 * 100', 'bytes 1 256', 'pack >H 65536', 'align 0', 'align 0x0', 'align 99999999999999999999', 'align 0x100000001', 'DB 256', 'Dh 70000', 'DW 0x100000000', 'BYTES 1 2 256', 'ADDI x1, x1, 5000', 'Pack <B 256'],
+              'bytes 1 2 256', 'shorts 65536', 'ints -2147483649', 'pack <B 256', 'pack <h, 40000', 'addi x8, x8, 32 * 100', 'bytes 1 256', 'pack >H 65536', 'align 0', 'align 0x0', 'align 1 - 1', 'align (0)', 'align K1 - 12', 'align 0 * 4', 'align K1 - K1', 'align -K1', 'align 99999999999999999999', 'align 0x100000001', 'DB 256', 'Dh 70000', 'DW 0x100000000', 'BYTES 1 2 256', 'ADDI x1, x1, 5000', 'Pack <B 256'],
     'unknown_register': ['add x1, x1, foo', 'addi x32, x1, 1', 'mv x1, foo', 'lw foo, 0(x1)', 'sw x1, 0(bar)', 'c.mv x1, foo', 'li foo, 1', 'sub x8, x8, x99',
                          'slli x8, x8, foo', 'and x8, x8, q', 'neg a9, a0', 'jr x40', 'beq foo, x0, START', 'c.addi foo, 1', 'amoadd.w x1, x2, foo', 'csrrw foo, x1, 1',
                          'addi KR, x9, 1', 'mv KR, x5', 'sub x8, KR, x9', 'lw x9, 4(KR)', 'c.mv KR, x5', 'li KR, 1'],      # a register number that arrives through a constant
